@@ -20,7 +20,8 @@ AFTER = ["reset_mid_cl", "close_mid_cl", "close_mid_chunk", "no_terminal_chunk",
 DIAL_LEVEL = ["refused", "close_immediately", "dial_blackhole", "write_stall"]
 GOOD = ["ok_cl", "ok_chunked", "stall_short", "cl_too_small"]
 
-SERVICES = [{"name": "s%d" % i, "buffer_req": bool(i & 1), "buffer_resp": bool(i & 2), "custom": bool(i & 4)}
+# s6, s7: custom pages for some statuses only (no 504.html): a gateway timeout falls back to the built-in page
+SERVICES = [{"name": "s%d" % i, "buffer_req": bool(i & 1), "buffer_resp": bool(i & 2), "custom": bool(i & 4), "partial": i >= 6}
             for i in range(8)]
 
 
@@ -293,23 +294,27 @@ def judge(work, all_cases, obs0):
             custom[int(m.group(1))] = b
     shard = 60
     jobs = []
-    for s in range(0, len(all_cases), shard):
-        part = all_cases[s:s + shard]
-        terms = [(lambda pages, k=k, c=c, o=o: seq_term(pages, c, o) if k == "seq" else stall_term(pages, c, o))
-                 for (k, c, o) in part]
-        jobs.append((s, terms))
+    custom_partial = {k: v for k, v in custom.items() if k != 504}
+    is_partial = lambda k, c: k == "seq" and SERVICES[c["svc"]].get("partial")
+    for tag, table, idxs in (("f", custom, [i for i, (k, c, o) in enumerate(all_cases) if not is_partial(k, c)]),
+                             ("p", custom_partial, [i for i, (k, c, o) in enumerate(all_cases) if is_partial(k, c)])):
+        for s in range(0, len(idxs), shard):
+            part = idxs[s:s + shard]
+            terms = [(lambda pages, k=all_cases[i][0], c=all_cases[i][1], o=all_cases[i][2]:
+                      seq_term(pages, c, o) if k == "seq" else stall_term(pages, c, o)) for i in part]
+            jobs.append(("%s%d" % (tag, s), table, part, terms))
     from concurrent.futures import ThreadPoolExecutor
 
     def ev(job):
-        s, terms = job
-        return s, evaluate(work, "Cases_%d" % s, builtin, custom, terms)
+        name, table, part, terms = job
+        return part, evaluate(work, "Cases_%s" % name, builtin, table, terms)
     with ThreadPoolExecutor(max_workers=12) as ex:
-        for s, fl in ex.map(ev, jobs):
+        for part, fl in ex.map(ev, jobs):
             for (j, a, m) in fl:
                 if j >= 10000:
-                    known.setdefault(s + j % 10000, {})[j // 10000] = a
+                    known.setdefault(part[j % 10000], {})[j // 10000] = a
                 else:
-                    failing[s + j] = (a, m)
+                    failing[part[j]] = (a, m)
     return failing, known
 
 
@@ -376,7 +381,9 @@ def run(tier, seed):
                     if not a:
                         disagree.append(j)
                 elif (all_cases[j][0] == "seq" and "C15-F3-unread-body-stuck-in-dial" in listed and
-                      evaluate_f3(work, "F3_%d" % j, *f3_pages, all_cases[j][1], all_cases[j][2])):
+                      evaluate_f3(work, "F3_%d" % j, f3_pages[0],
+                                  {k: v for k, v in f3_pages[1].items() if not (k == 504 and SERVICES[all_cases[j][1]["svc"]].get("partial"))},
+                                  all_cases[j][1], all_cases[j][2])):
                     known_hits.setdefault(3, []).append(j)
                 else:
                     real_mon.append(j)
